@@ -297,7 +297,14 @@ def main():
                 seen_clause = set()
                 for k in range(a.count):
                     raw = c.gen(rng)
-                    fails = check_once(reg, c, raw)
+                    try:
+                        fails = check_once(reg, c, raw)
+                    except (AttributeError, ImportError, TypeError) as e:
+                        # the function under contract cannot be resolved / called as the contract expects
+                        # (renamed, signature changed): undecided for the run-time tier, not a harness crash
+                        out.setdefault("unresolved", {})[c.key] = "%s: %s" % (type(e).__name__, str(e)[:200])
+                        fails = None
+                        break
                     if fails is None:
                         continue
                     valid += 1
@@ -309,6 +316,8 @@ def main():
                             out["fails"].append(fl)
                 out["functions"][c.key] = {"drawn": a.count, "valid": valid}
                 out["evaluations"] += valid
+                if c.key in out.get("unresolved", {}):
+                    continue
                 if valid < max(10, a.count // 10):
                     out["crashes"].append("generator of %s satisfies its precondition on only %d of %d draws"
                                           % (c.key, valid, a.count))
